@@ -32,7 +32,7 @@ OBLIGATIONS = [
     # netlist level (Props/C09Net.lean): constructor's netlist under Net.Sim = Lib model, for all histories
     'C09N.cycle', 'C09N.init_state', 'C09N.netTrace_sim', 'C09N.treg_net', 'C09N.counter_net', 'C09N.stepUpCounter_net',
     'C09N.delayLine_net', 'C09N.edgeDetector_netD', 'C09N.edgeDetector_netD_pre', 'C09N.shiftRegBidir_net', 'C09N.stack_net', 'C09N.pipelinePhase_net',
-    'FlatM.propagate_combfix', 'FlatM.edge_sim', 'C04.propagate_fixpoint', 'C05.leaf_sees_pre_edge',
+    'SeqFlat.propagate_combfix', 'SeqFlat.edge_sim', 'SeqFlat.gen_reg_rule', 'C04.propagate_fixpoint', 'C05.leaf_sees_pre_edge',
     # dual-port memory: generated clock (Gen/C09.lean via harness/targets.d/C09.json)
     'C09.dualPort_read_before_write',
     # leaf bridges the block models rest on
